@@ -143,6 +143,8 @@ package rr
 //@   requires side >= 0 && uh1 + uh2 + uh3 + uh4 + uh5 > 0
 //@   assigns actualET.cells, runoff.cells, imperviousRunoff.cells, surfaceRunoff.cells, baseflow.cells
 //@   loop 0 invariant 0 <= timestep && timestep <= nDays
+//@   loop 0 step [C10.sac-components-add-up] surfaceRunoff.at(timestep) + baseflow.at(timestep) == runoff.at(timestep)
+//@   loop 0 step [C10.sac-runoff-nonneg] runoff.at(timestep) >= 0 && baseflow.at(timestep) >= 0
 
 //@ spec asum(a []real, n int) real = ite(n <= 0, 0.0, asum(a, n-1) + a[n-1])
 
